@@ -32,6 +32,12 @@ def plan(tier, seed):
 	return tasks
 
 
+import numpy as np
+
+K_TYPES = ['int', 'i8', 'i4', 'u1', 'i1', 'u8']
+I_TYPES = ['int', 'u8', 'i8', 'u4']
+
+
 def _enc(fn, arg):
 	try:
 		return int(fn(arg))
@@ -71,6 +77,20 @@ def _check_kmer(sh, kmer: bytes, fns, full=True):
 		sh.evals += 1
 		if back != R.ref_upper(kmer):
 			sh.violation('index_to_kmer', dict(index=exp, k=len(kmer)), R.ref_upper(kmer), back)
+		if full:
+			# the public name, with k and the index as plain and as NumPy integers (KmerSpec.k of a loaded signature file is a NumPy integer)
+			for kt in K_TYPES:
+				for it in I_TYPES:
+					if it != 'int' and exp > np.iinfo(it).max:
+						continue
+					sh.evals += 1
+					try:
+						b2 = gk.index_to_kmer(exp if it == 'int' else np.dtype(it).type(exp), len(kmer) if kt == 'int' else np.dtype(kt).type(len(kmer)))
+					except Exception as e:
+						b2 = repr(e)
+					if b2 != R.ref_upper(kmer):
+						sh.violation('index_to_kmer-public-name', dict(kmer=kmer, index=exp, k=len(kmer), k_type=kt, index_type=it), R.ref_upper(kmer), b2)
+						break
 		if _enc(ck.kmer_to_index, rc) != exp_rc:
 			sh.violation('rc-consistency', dict(kmer=kmer), exp_rc, _enc(ck.kmer_to_index, rc))
 	if full:
@@ -241,12 +261,14 @@ def replay(case, kind=None):
 	if 'pattern' in case:
 		import os
 		return [v for v in t_long(int(os.environ.get('VERIF_SEED') or 0)).violations if v['case'] == case]
-	if 'kmer' in case or 'seq' in case:
+	if ('kmer' in case or 'seq' in case) and 'k_type' not in case:
 		_check_kmer(sh, case.get('kmer', case.get('seq')), None)
 	elif kind == 'index_dtype':
 		import gambit.kmers as gk
 		if str(gk.index_dtype(case['k'])) != R.ref_dtype(case['k']):
 			sh.violation(kind, case, R.ref_dtype(case['k']), str(gk.index_dtype(case['k'])))
+	elif 'k_type' in case:
+		_check_kmer(sh, case['kmer'], None)
 	elif 'index' in case:
 		km = ck.index_to_kmer(case['index'], case['k'])
 		if km != R.ref_kmer(case['index'], case['k']):
